@@ -49,3 +49,36 @@ for _tag, _name, _want in _CASES:
         raises=({} if _want is not None else {"NotFoundError": "True"}), raises_props=["C20"],
         ensures=([("C20+C15.the_name_denotes_exactly_these_objects", "len(result) == len(%s) and all(result[i] is %s[i] for i in range(len(%s)))" % (_want, _want, _want))] if _want is not None else []),
         defined_props=["C20", "C15"])
+
+
+# ---- Result.get_variable: one population -> that population's objects; no population given -> the objects of every population that knows the
+# name, in population order, populations that do not know it being skipped; nobody knows it -> NotFoundError
+def _env_result_lookup(pops, known):
+    def make(it):
+        from pyvc.interp import PyObjV
+        from pyvc import source
+
+        mm = source.load("model")
+        P = [PyObjV("Population", mm, {"name": "p%d" % i, "KNOWS": known[i]}) for i in range(3)]
+        model = PyObjV("Model", mm, {"pops": P, "_pop_ids": {"p0": 0, "p1": 1, "p2": 2}})
+        return {"self": PyObjV("Result", source.load("results"), {"model": model}), "name": "x", "pops": pops, "P": P}
+
+    return make
+
+
+def _ghost_pop_get_variable(it, name):
+    from pyvc.interp import _Raise
+
+    pop = it.stub_receiver
+    if not pop.fields["KNOWS"]:
+        raise _Raise("NotFoundError")
+    return [("x of", pop.fields["name"])]
+
+
+_ls = {"pop.get_variable": _ghost_pop_get_variable, "self.model.get_pop(pops).get_variable": (lambda it, name: [("x of", it.live_env["pops"])])}
+for _tag, _pops, _known, _want in (("one_population", "p1", (True, True, True), [("x of", "p1")]), ("all_populations", None, (True, False, True), [("x of", "p0"), ("x of", "p2")]), ("unknown_everywhere", None, (False, False, False), None)):
+    CONTRACTS["results:Result.get_variable#%s" % _tag] = dict(
+        schema=schema, make_env=_env_result_lookup(_pops, _known), call_stubs=_ls,
+        raises=({} if _want is not None else {"NotFoundError": "True"}), raises_props=["C20"],
+        ensures=([("C20.the_objects_of_the_population_asked_or_of_every_population_that_knows_the_name_in_order", "result == %r" % (_want,))] if _want is not None else []),
+        defined_props=["C20"])
